@@ -31,6 +31,10 @@ MODES = {
                                 ("é" * 128, "x" * 255, "y" * 256, "\u20ac" * 90), "keep"),
     "insert_python_exec": (lambda p: p.insert_python_exec(EXEC_PAYLOAD), ("exec-arg",), "keep"),
     "insert_python_exec-runlast": (lambda p: p.insert_python_exec(EXEC_PAYLOAD, run_first=False), ("exec-arg",), "keep"),
+    # exec() returns None: with the replace-result flag the rewritten pickle unpickles to None
+    "insert_python_exec-replace": (lambda p: p.insert_python_exec(EXEC_PAYLOAD, use_output_as_unpickle_result=True), ("exec-arg",), "none"),
+    "insert_python_exec-runlast-replace": (lambda p: p.insert_python_exec(EXEC_PAYLOAD, run_first=False, use_output_as_unpickle_result=True),
+                                           ("exec-arg",), "none"),
     "append_python-pop": (lambda p: p.append_python("a1", 2, module="vp_sink", attr="hit", pop_result=True), ("a1", 2), "keep"),
     "append_python-nopop": (lambda p: p.append_python("a1", 2, module="vp_sink", attr="hit", pop_result=False), ("a1", 2), "replace"),
     "fn_call": (lambda p: p.insert_function_call_on_unpickled_object(FN), (), "wrapped"),
@@ -206,6 +210,8 @@ def _base(item):
                 ok = _eq(v2, b_val)
             elif kind == "replace":
                 ok = hits and _eq(v2, ("sink-result", hits[0]))
+            elif kind == "none":
+                ok = v2 is None
             else:
                 ok = isinstance(v2, tuple) and len(v2) == 2 and v2[0] == "wrapped" and _eq(v2[1], b_val)
             if not ok:
